@@ -75,7 +75,7 @@ def _(self, dataset_left, dataset_right, img_left, img_right, cv):
              2 * dataset_left.attrs["offset_row_col"] <= dataset_left["disparity_map"].data.shape[1])
     assigns(dataset_left)
     raises_never()
-    option(lazy_slices=True, no_fuzz=True, witness_marks=True)
+    option(lazy_slices=True, witness_marks=True)
     # C07: a previously valid pixel stays unflagged iff its correspondent lies in the right image and |dL(p)+dR(q)| <= threshold;
     # otherwise mismatch (bit 9) when some d of the interval has round(dR(p+d)) == -d, occlusion (bit 8) when none -- never both;
     # pixels already invalid are not re-examined
@@ -118,3 +118,30 @@ def _(self, dataset_left, dataset_right, img_left, img_right, cv):
                   if old(dataset_left["validity_mask"].data)[r, c] & 0b01111000011 == 0 and not (corr_col(dataset_left["disparity_map"].data, r, c) < 0 or corr_col(dataset_left["disparity_map"].data, r, c) >= nb_col) and not (lr_dist(dataset_left["disparity_map"].data, dataset_right["disparity_map"].data, r, c) <= self._threshold) and not other_match(dataset_right["disparity_map"].data, r, c, int(dataset_left["disparity_interval"].data[0]), int(dataset_left["disparity_interval"].data[1]))),
               all(eq(conf_measure[r, c], cc_conf(old(dataset_left["validity_mask"].data), dataset_left["disparity_map"].data, dataset_right["disparity_map"].data, r, c)) for r in range(row) for c in range(nb_col)),
               all(isnan(conf_measure[r, c]) for r in range(row, nb_row) for c in range(nb_col)))
+
+
+@sampler("pandora.validation.validation.CrossCheckingAccurate.disparity_checking")
+def _(rng):
+    import xarray as xr
+    from pandora.validation.validation import CrossCheckingAccurate
+    shapes = [(1, 1), (1, 5), (2, 4), (3, 6), (4, 5)]
+    h, w = shapes[rng.integers(0, len(shapes))]
+    off = int(rng.integers(0, 2)) if min(h, w) >= 2 else 0
+    dmin = int(rng.integers(-3, 2))
+    dmax = dmin + int(rng.integers(0, 4))
+    vals = np.arange(dmin * 2, dmax * 2 + 1) / 2.0          # halves: exercises round-half-to-even
+    dl = vals[rng.integers(0, len(vals), size=(h, w))].astype(np.float32)
+    dr = (-vals[rng.integers(0, len(vals), size=(h, w))]).astype(np.float32)
+    dr[rng.random((h, w)) < 0.15] = np.nan
+    bits = np.array([0, 0, 0, 0, 4, 8, 16, 1, 2, 64, 128], dtype=np.uint16)
+    vm = bits[rng.integers(0, len(bits), size=(h, w))]
+    dl[(vm & 0b01111000011) != 0] = [np.nan, -9999.0][rng.integers(0, 2)]
+    left = xr.Dataset({"disparity_map": (["row", "col"], dl), "validity_mask": (["row", "col"], vm.copy()),
+                       "disparity_interval": (["disparity"], np.array([dmin, dmax], dtype=np.float32))},
+                      coords={"row": np.arange(h), "col": np.arange(w), "disparity": ["min", "max"]})
+    left.attrs = {"offset_row_col": off, "validation": ""}
+    right = xr.Dataset({"disparity_map": (["row", "col"], dr), "validity_mask": (["row", "col"], np.zeros((h, w), dtype=np.uint16))},
+                       coords={"row": np.arange(h), "col": np.arange(w)})
+    me = CrossCheckingAccurate.__new__(CrossCheckingAccurate)
+    me._threshold = float([0.0, 0.5, 1.0, 2.0][rng.integers(0, 4)])
+    return {"self": me, "dataset_left": left, "dataset_right": right, "img_left": None, "img_right": None, "cv": None}
